@@ -230,13 +230,18 @@ async def component_tree():
 
         async def start(self):
             add_resource(A(), description=self.tag)              # default name remapped through the alias
-            add_resource_factory(lambda: C(), types=[C])
+            add_resource_factory(lambda: C(), types=[C], description="factory of " + self.tag)
+            async with Context() as inner:                       # a context opened inside start(): snapshot of the real parent, now
+                inner.get_resources(A)
+                await _quiet(inner.get_resource, C)
+                await _quiet(inner.get_resource_nowait, A, self.tag if self.tag != "leaf" else "default")
             await get_resource(B, "shared")                      # waits for the sibling
             get_resources(A)
 
     class Provider(Component):
         async def prepare(self):
-            add_resource(B(), "prepared")
+            add_resource(B(), "prepared", description="made in prepare")
+            add_resource(B())                                    # default name in prepare(): not remapped
 
         async def start(self):
             add_resource(B(), "shared")
@@ -247,7 +252,7 @@ async def component_tree():
         def __init__(self):
             self.add_component("leaf/first", Leaf, tag="first")
             self.add_component("leaf/second", Leaf, tag="second")
-            self.add_component("provider", Provider)
+            self.add_component("provider/named", Provider)
 
         async def start(self):
             get_resources(A)
